@@ -84,7 +84,9 @@ namespace Abverif.Ws
 /-! ### deadlines: an armed timer whose deadline the clock has passed has fired
 
 `Quiescent target s`: no timer of `s` is due at `target` — what `advanceTo target` guarantees when it returns
-through one of its regular exits (see `advanceTo_quiescent_or_stuck`). -/
+through one of its regular exits. It is a hypothesis of the deadline theorems below, discharged by `decide` in their
+examples only: `advance` provides `dt/8 + 64` steps, enough when the ping interval is 0 or at least one second; a
+sub-second interval can exhaust the fuel, and then the clock is not moved (visible in every compared run). -/
 
 def Quiescent (target : Nat) (s : S) : Prop := ∀ t ∈ s.timers, target < t.2.1
 
@@ -328,5 +330,207 @@ theorem handshakeDone_cancels_openHs (s : S) (h : s.st = .connecting) : (handsha
   rw [if_neg (by simp [h])]
   dsimp only
   split <;> simp [armPingNext, S.timer]
+
+end Abverif.Ws
+
+namespace Abverif.Ws
+
+/-! ### the opening-handshake deadline and the pong deadline (analogues of `close_timeout_drops`) -/
+
+theorem sendAutoPing_tOpenHs (s : S) : (sendAutoPing s).tOpenHs = s.tOpenHs := by
+  unfold sendAutoPing
+  dsimp only
+  split
+  · show (sendPing (beginAutoPing s) _).tOpenHs = s.tOpenHs
+    rw [(sendPing_SendEq _ _).tOpenHs]; rfl
+  · split
+    · show (sendPing (beginAutoPing s) _).tOpenHs = s.tOpenHs
+      rw [(sendPing_SendEq _ _).tOpenHs]; rfl
+    · rw [(sendPing_SendEq _ _).tOpenHs]; rfl
+
+theorem fire_keeps_openHs (s : S) (k : TK) (t : Nat × Nat) (h : s.tOpenHs = some t) (hc : s.st = .connecting)
+    (hk : k ≠ .openHs) :
+    (fire s k).st = .closed ∨ ((fire s k).tOpenHs = some t ∧ (fire s k).st = .connecting) := by
+  have hnc : s.st ≠ .closed := by rw [hc]; decide
+  cases k with
+  | openHs => exact absurd rfl hk
+  | closeHs => left; exact (fire_closeHs_drops s hnc).1
+  | serverDrop => left; exact (fire_serverDrop_drops s hnc).1
+  | pingTimeout => left; exact (fire_pingTimeout_drops s hnc).1
+  | pingNext => right; simp only [fire]; exact ⟨by rw [sendAutoPing_tOpenHs]; exact h, by rw [sendAutoPing_st]; exact hc⟩
+  | sendTick =>
+    right; simp only [fire]
+    exact ⟨by rw [(sendTick_SendEq _).tOpenHs]; exact h, by rw [(sendTick_SendEq _).st]; exact hc⟩
+
+theorem advanceTo_openHs_inv (target : Nat) (t : Nat × Nat) :
+    ∀ (fuel : Nat) (s : S), (s.st = .closed ∨ (s.tOpenHs = some t ∧ s.st = .connecting)) →
+      ((advanceTo target fuel s).st = .closed ∨
+        ((advanceTo target fuel s).tOpenHs = some t ∧ (advanceTo target fuel s).st = .connecting)) := by
+  intro fuel
+  induction fuel with
+  | zero => intro s h; simpa [advanceTo] using h
+  | succ n ih =>
+    intro s h
+    unfold advanceTo
+    split
+    · rename_i k d q hn
+      split
+      · apply ih
+        rcases h with h | ⟨h, hc⟩
+        · exact Or.inl (fire_closed _ k (by simpa using h))
+        · by_cases hk : k = .openHs
+          · subst hk
+            exact Or.inl (fire_openHs_drops _ (by simpa using hc)).1
+          · exact fire_keeps_openHs _ k t (by simpa using h) (by simpa using hc) hk
+      · simpa using h
+    · simpa using h
+
+/-- **open_timeout_drops**: a connection still in its opening handshake whose handshake timer is armed for `D` is CLOSED
+once the clock has passed `D` with every due timer run (completing the handshake would have cancelled it:
+`handshakeDone_cancels_openHs`) -/
+theorem open_timeout_drops (target fuel : Nat) (s : S) (D q : Nat)
+    (harmed : s.tOpenHs = some (D, q)) (hc : s.st = .connecting) (hD : D ≤ target)
+    (hq : Quiescent target (advanceTo target fuel s)) :
+    (advanceTo target fuel s).st = .closed := by
+  rcases advanceTo_openHs_inv target (D, q) fuel s (Or.inr ⟨harmed, hc⟩) with h | ⟨h, _⟩
+  · exact h
+  · exfalso
+    have : (TK.openHs, (D, q)) ∈ (advanceTo target fuel s).timers := by
+      simp [S.timers, h]
+    have := hq _ this
+    simp at this
+    omega
+
+/-- the hypotheses are met by a real start state: handshake timeout 1 s, the peer never completes the handshake, two
+seconds later every due timer has run and the connection is CLOSED -/
+example : (startConnecting { openHsTimeout := 1048576 }).st = .connecting ∧
+    (startConnecting { openHsTimeout := 1048576 }).tOpenHs = some (1048576, 0) ∧
+    (∀ t ∈ (advanceTo 2097152 64 (startConnecting { openHsTimeout := 1048576 })).timers, 2097152 < t.2.1) ∧
+    (advanceTo 2097152 64 (startConnecting { openHsTimeout := 1048576 })).st = .closed := by
+  decide
+
+/-- `server_drop_timeout_drops` applies to a real history: a client sends close, the server replies, but never drops
+the TCP connection; serverConnectionDropTimeout (1 s) later the client has dropped it -/
+example : let s := run (start { isServer := false }) [.close (some 1000) none, .feed [0x88, 0x02, 0x03, 0xe8]]
+    s.st = .closing ∧ s.tServerDrop.isSome = true ∧
+    (∀ t ∈ (advanceTo (s.now + 2097152) 64 s).timers, s.now + 2097152 < t.2.1) ∧
+    (advanceTo (s.now + 2097152) 64 s).st = .closed := by
+  decide
+
+end Abverif.Ws
+
+namespace Abverif.Ws
+
+theorem pick_mem (l : List (TK × Nat × Nat)) :
+    ∀ (acc : Option (TK × Nat × Nat)) (r : TK × Nat × Nat),
+      l.foldl (fun acc t => match acc with
+        | none => some t
+        | some a => if earlier a t then some a else some t) acc = some r →
+      r ∈ l ∨ acc = some r := by
+  induction l with
+  | nil => intro acc r h; exact Or.inr h
+  | cons x xs ih =>
+    intro acc r h
+    simp only [List.foldl_cons] at h
+    rcases ih _ r h with h1 | h1
+    · exact Or.inl (List.mem_cons_of_mem _ h1)
+    · cases acc with
+      | none =>
+        simp only [Option.some.injEq] at h1
+        subst h1; exact Or.inl (List.mem_cons_self ..)
+      | some a =>
+        dsimp only at h1
+        split at h1
+        · exact Or.inr h1
+        · simp only [Option.some.injEq] at h1
+          subst h1; exact Or.inl (List.mem_cons_self ..)
+
+/-- the timer `advanceTo` picks is one of the armed timers -/
+theorem nextTimer_mem (s : S) (r : TK × Nat × Nat) (h : nextTimer s = some r) : r ∈ s.timers := by
+  unfold nextTimer at h
+  rcases pick_mem s.timers none r h with h1 | h1
+  · exact h1
+  · cases h1
+
+theorem pingNext_not_picked (s : S) (d q : Nat) (hn : s.tPingNext = none) : nextTimer s ≠ some (TK.pingNext, d, q) := by
+  intro h
+  have := nextTimer_mem s _ h
+  simp [S.timers, hn] at this
+  rcases this with h | h | h | h | h
+  all_goals (split at h <;> simp at h)
+
+theorem fire_keeps_pingTimeout (s : S) (k : TK) (t : Nat × Nat) (h : s.tPingTimeout = some t) (hn : s.tPingNext = none)
+    (hk : k ≠ .pingTimeout) (hk2 : k ≠ .pingNext) :
+    (fire s k).st = .closed ∨ ((fire s k).tPingTimeout = some t ∧ (fire s k).tPingNext = none) := by
+  cases k with
+  | pingTimeout => exact absurd rfl hk
+  | pingNext => exact absurd rfl hk2
+  | openHs =>
+    simp only [fire]; split
+    · left; exact dropConnection_st _ _
+    · right; exact ⟨h, hn⟩
+  | closeHs =>
+    simp only [fire]; split
+    · left; exact dropConnection_st _ _
+    · right; exact ⟨h, hn⟩
+  | serverDrop =>
+    simp only [fire]; split
+    · left; exact dropConnection_st _ _
+    · right; exact ⟨h, hn⟩
+  | sendTick =>
+    right; simp only [fire]
+    exact ⟨by rw [(sendTick_SendEq _).tPingTimeout]; exact h, by rw [(sendTick_SendEq _).tPingNext]; exact hn⟩
+
+theorem advanceTo_pingTimeout_inv (target : Nat) (t : Nat × Nat) :
+    ∀ (fuel : Nat) (s : S), (s.st = .closed ∨ (s.tPingTimeout = some t ∧ s.tPingNext = none)) →
+      ((advanceTo target fuel s).st = .closed ∨
+        ((advanceTo target fuel s).tPingTimeout = some t ∧ (advanceTo target fuel s).tPingNext = none)) := by
+  intro fuel
+  induction fuel with
+  | zero => intro s h; simpa [advanceTo] using h
+  | succ n ih =>
+    intro s h
+    unfold advanceTo
+    split
+    · rename_i k d q hnt
+      split
+      · apply ih
+        rcases h with h | ⟨h, hn⟩
+        · exact Or.inl (fire_closed _ k (by simpa using h))
+        · by_cases hk : k = .pingTimeout
+          · subst hk
+            by_cases hc : s.st = .closed
+            · exact Or.inl (fire_closed _ _ (by simpa using hc))
+            · exact Or.inl (fire_pingTimeout_drops _ (by simpa using hc)).1
+          · have hk2 : k ≠ .pingNext := by
+              intro e; subst e
+              exact pingNext_not_picked s d q hn hnt
+            exact fire_keeps_pingTimeout _ k t (by simpa using h) (by simpa using hn) hk hk2
+      · simpa using h
+    · simpa using h
+
+/-- **ping_timeout_drops**: a ping is outstanding with its pong deadline armed for `D` (and, as always then, no further
+ping scheduled); the peer stays silent: once the clock has passed `D` with every due timer run the connection is CLOSED
+(a matching pong would have cancelled the deadline: `pong_cancels_pingTimeout`) -/
+theorem ping_timeout_drops (target fuel : Nat) (s : S) (D q : Nat)
+    (harmed : s.tPingTimeout = some (D, q)) (hn : s.tPingNext = none) (hD : D ≤ target)
+    (hq : Quiescent target (advanceTo target fuel s)) :
+    (advanceTo target fuel s).st = .closed := by
+  rcases advanceTo_pingTimeout_inv target (D, q) fuel s (Or.inr ⟨harmed, hn⟩) with h | ⟨h, _⟩
+  · exact h
+  · exfalso
+    have : (TK.pingTimeout, (D, q)) ∈ (advanceTo target fuel s).timers := by
+      simp [S.timers, h]
+    have := hq _ this
+    simp at this
+    omega
+
+/-- a real history: ping interval 1 s, pong deadline 1 s, the peer never answers: after the first ping the deadline is
+armed and no further ping is scheduled; two seconds later the connection has been dropped -/
+example : let s := run (start { pingInterval := 1048576, pingTimeout := 1048576 }) [.advance 1048576]
+    s.st = .opened ∧ s.tPingTimeout.isSome = true ∧ s.tPingNext = none ∧
+    (∀ t ∈ (advanceTo (s.now + 2097152) 64 s).timers, s.now + 2097152 < t.2.1) ∧
+    (advanceTo (s.now + 2097152) 64 s).st = .closed := by
+  decide
 
 end Abverif.Ws
